@@ -12,6 +12,8 @@ CONF = {
     "C04": {"quick": 96, "thorough": 3000, "batch": 6, "min_distinct": 8, "loops": [1, 2]},
     "C05": {"quick": 1600, "thorough": 60000, "batch": 100, "min_distinct": 20, "loops": [1, 2]},
     "C06": {"quick": 1600, "thorough": 60000, "batch": 100, "min_distinct": 20, "loops": [1, 2]},
+    "C07": {"quick": 800, "thorough": 40000, "batch": 50, "min_distinct": 20, "loops": [1, 2], "env_alt": [{}, {"GODEBUG": "asynctimerchan=0"}]},
+    "C08": {"quick": 480, "thorough": 20000, "batch": 30, "min_distinct": 20, "loops": [1, 2], "env_alt": [{}, {"GODEBUG": "asynctimerchan=0"}]},
     "C09": {"quick": 1600, "thorough": 60000, "batch": 100, "min_distinct": 20, "loops": [1, 2]},
 }
 
@@ -61,6 +63,9 @@ def run(prop, tier, seed, replay=None):
             if guard > 1 and frm >= 0:
                 env["VERIF_NO_DIRECTED"] = "1"
             env.update(conf.get("env", {}))
+            alts = conf.get("env_alt")
+            if alts:
+                env.update(alts[(bi // 2) % len(alts)])
             r = vlib.run_child(binary, TEST, env, wd * cnt + 120, "%s-b%d-%d" % (prop, frm, guard))
             recs += r["records"]
             st = [x for x in r["records"] if x.get("kind") == "stats"]
